@@ -55,7 +55,7 @@ BUILT = {
  "C17": ("differential property-based testing: the same generated history on the f32 and the f64 instantiation",
          "Generated histories (all seven types, sinc tables up to 512x2048 points) are executed on an f32 and an f64 instance fed the same f32-representable samples: getters, returned counts and frames written must be equal at every step, outputs within 64 eps_f32 x peak. Exploration level.",
          "inputs rounded to f32; benign envelope for fixed-input ratio changes"),
- "C18": ("schedule-exploring property-based testing: generated assignment of every call of up to 16 instances to up to 16 OS threads with barrier-released rounds; differential against the single-threaded run",
+ "C18": ("schedule-exploring property-based testing: generated assignment of every call of up to 16 instances to up to 16 OS threads with barrier-released rounds, for a quarter of the cases also executed as the first use of the library in a pristine process; differential against the single-threaded run and a run alone in a fresh process",
          "Generated sets of 2..16 instances with histories and a schedule (thread per call, instances migrate between calls, all calls of a round released by a barrier, construction concurrent too); per-step results, getters and output bits of every instance must equal the single-threaded run. Exploration level: the harness controls placement and overlap, not instruction-level interleaving.",
          "a race needing a narrow window can be missed"),
 }
@@ -87,10 +87,10 @@ man = {
    "source_commits": [],
    "add_only": True,
  },
- "engines": [{"name": "rv-fuzz", "path": "/verif/harness/fuzz", "serves_properties": ["C03","C04","C10","C11","C15","C16","C17"], "kind_free_text": "cargo-fuzz (libFuzzer, AddressSanitizer, debug assertions) targets hist, kernel, twins: bytes decoded through arbitrary::Unstructured into the same cases as the proptest strategies, semantic oracles inside the target"}, {"name": "rv", "path": "/verif/harness", "serves_properties": [c["property_id"] for c in checks],
+ "engines": [{"name": "rv-fuzz", "path": "/verif/harness/fuzz", "serves_properties": ["C03","C04","C10","C11","C13","C15","C16","C17"], "kind_free_text": "cargo-fuzz (libFuzzer, AddressSanitizer, debug assertions) targets hist, kernel, twins, faults: bytes decoded through arbitrary::Unstructured into the same cases as the proptest strategies, semantic oracles inside the target"}, {"name": "rv", "path": "/verif/harness", "serves_properties": [c["property_id"] for c in checks],
               "kind_free_text": "Rust binary: proptest TestRunner per lane (16 lanes, fixed seeds from VERIF_SEED), worker subprocesses for crash isolation, explicit oracle per property, shrinking to JSON replay files"}],
  "checks": checks,
- "notes": "All checks are property-based tests / fuzzing with explicit oracles (see DESIGN.md). Thorough tiers of C03, C04, C10, C11, C15, C16, C17 add a libFuzzer + AddressSanitizer campaign (tools/fuzz.sh). Exit 0 held, 1 violation (VIOLATION line), 2 inconclusive (watchdog / health). Known findings: /verif/known_findings.json.",
+ "notes": "All checks are property-based tests / fuzzing with explicit oracles (see DESIGN.md). Thorough tiers of C03, C04, C10, C11, C13, C15, C16, C17 add a libFuzzer + AddressSanitizer campaign (tools/fuzz.sh). Exit 0 held, 1 violation (VIOLATION line), 2 inconclusive (watchdog / health). Known findings: /verif/known_findings.json.",
  "not_applicable": [{"property_id": p, "reason": "check not built yet (work in progress; the design in DESIGN.md covers it)"} for p in ALL if p not in BUILT],
 }
 json.dump(man, open(os.path.join(ROOT, "MANIFEST.json"), "w"), indent=1)
